@@ -118,6 +118,7 @@ type Exec struct {
 	covers      []*Obligation
 	entryInf    *entryInfo
 	litParams   map[string]*Cell
+	curHidden   *Cell
 	lazyCaptures bool
 	boxedPtrs   map[string]PtrVal
 	boxedVals   map[string]Value
@@ -372,14 +373,59 @@ func (e *Exec) run() {
 		}
 		e.entry = st.clone()
 	}
-	outs := e.execBlock(st, e.decl.Body.List)
-	for _, o := range outs {
-		switch o.ctl {
-		case ctlNext:
-			// fell off the end: implicit return
-			e.doReturn(o.st, nil, e.decl.Body)
-		case ctlBreak, ctlContinue:
-			panic(unsupported("stray break/continue"))
+	starts := []*State{st}
+	if e.contract != nil {
+		for _, cs := range e.contract.Cases {
+			var next []*State
+			for _, s0 := range starts {
+				env := e.funcEnv(s0, e.entry)
+				env.what = e.funcName() + " cases"
+				x := env.evalInt(cs.Expr)
+				var none []*Term
+				for _, ve := range cs.Values {
+					v := env.evalInt(ve)
+					c := s0.clone()
+					c.assume(mkEq(x, v))
+					none = append(none, mkNe(x, v))
+					// write the constant back so that later loads of the location fold to it
+					func() {
+						defer func() {
+							if r := recover(); r != nil {
+								if _, ok := r.(ContractError); !ok {
+									panic(r)
+								}
+							}
+						}()
+						cenv := e.funcEnv(c, e.entry)
+						cenv.what = e.funcName() + " cases"
+						loc, lt := e.modLoc(cenv, cs.Expr)
+						if reprOf(lt) == rInt {
+							e.storeLoc(c, loc, Scalar{v, lt})
+						}
+					}()
+					if !c.dead {
+						next = append(next, c)
+					}
+				}
+				rest := s0.clone()
+				rest.assume(mkAnd(none...))
+				if !rest.dead {
+					next = append(next, rest)
+				}
+			}
+			starts = next
+		}
+	}
+	for _, s0 := range starts {
+		outs := e.execBlock(s0, e.decl.Body.List)
+		for _, o := range outs {
+			switch o.ctl {
+			case ctlNext:
+				// fell off the end: implicit return
+				e.doReturn(o.st, nil, e.decl.Body)
+			case ctlBreak, ctlContinue:
+				panic(unsupported("stray break/continue"))
+			}
 		}
 	}
 }
@@ -420,6 +466,37 @@ func (e *Exec) runLit() {
 		fr.results = append(fr.results, c)
 	}
 	e.lazyCaptures = true
+	// bind captured variables before the entry snapshot so that old(x) is available for them
+	ast.Inspect(e.lit.Body, func(n ast.Node) bool {
+		id, ok := n.(*ast.Ident)
+		if !ok {
+			return true
+		}
+		v, ok := e.pkg.TypesInfo.Uses[id].(*types.Var)
+		if !ok || v.IsField() || v.Pkg() == nil || v.Parent() == v.Pkg().Scope() {
+			return true
+		}
+		if v.Pos() >= e.lit.Pos() && v.Pos() <= e.lit.End() {
+			return true
+		}
+		if _, bound := e.cells[v]; bound {
+			return true
+		}
+		c := e.cellFor(v)
+		func() {
+			defer func() {
+				if r := recover(); r != nil {
+					if _, isU := r.(unsupportedErr); !isU {
+						panic(r)
+					}
+					delete(e.cells, v)
+				}
+			}()
+			st.store[c] = e.symbolicValue(st, v.Type(), v.Name())
+			e.litParams[v.Name()] = c
+		}()
+		return true
+	})
 	e.entry = st.clone()
 	if e.contract != nil {
 		env := e.funcEnv(st, e.entry)
